@@ -246,6 +246,18 @@ def execute(plan):
     mph_ref = [mass_per_height(c) if nonzero else None]
     _ = (mph0, area_in)
     check("at input temperature")
+    def keeps_geometry_valid(d, newv, is_cold):
+        """A generated assignment may push an inner dimension past the outer one; such a step is not
+        a well-formed input (armi refuses to compute a negative area) and is skipped."""
+        import copy
+
+        trial = copy.deepcopy(c)
+        trial.setDimension(d, newv, cold=is_cold)
+        try:
+            return float(trial.getArea(cold=True)) > 0 and float(trial.getArea()) > 0
+        except ArithmeticError:
+            return False
+
     for k, st in enumerate(plan["steps"]):
         if st["op"] == "temp":
             c.setTemperature(st["T"])
@@ -256,12 +268,11 @@ def execute(plan):
             if companion is None or fluidish:
                 continue
             d = te_dims[0]
-            if st["cold"]:
-                newv = cold[d] * st["factor"]
-                companion.setDimension("id", newv, retainLink=True, cold=True)
-            else:
-                newv = float(c.getDimension(d)) * st["factor"]
-                companion.setDimension("id", newv, retainLink=True, cold=False)
+            newv = (cold[d] if st["cold"] else float(c.getDimension(d))) * st["factor"]
+            if not keeps_geometry_valid(d, newv, st["cold"]):
+                probes["dimension_assignments_skipped_invalid"] = probes.get("dimension_assignments_skipped_invalid", 0) + 1
+                continue
+            companion.setDimension("id", newv, retainLink=True, cold=st["cold"])
             got_t = float(c.getDimension(d, cold=st["cold"]))
             got_l = float(companion.getDimension("id", cold=st["cold"]))
             if not rel(got_t, newv) or not rel(got_l, newv):
@@ -276,6 +287,10 @@ def execute(plan):
             if not te_dims:
                 continue
             d = te_dims[st["pick"] % len(te_dims)]
+            newv = (cold[d] if st["cold"] else float(c.getDimension(d))) * st["factor"]
+            if not keeps_geometry_valid(d, newv, st["cold"]):
+                probes["dimension_assignments_skipped_invalid"] = probes.get("dimension_assignments_skipped_invalid", 0) + 1
+                continue
             if st["cold"]:
                 newv = cold[d] * st["factor"]
                 c.setDimension(d, newv, cold=True)
